@@ -29,6 +29,20 @@ RFC_CONTROL_OIDS = {
 }
 FROM = '<ldap3::result::LdapResultExt as core::convert::From<lber::structures::Tag>>::from'
 
+def calls_above(t, stop):
+    """Short names of the calls of term t that are not inside a sub-term satisfying `stop` (what is applied *to* such a sub-term)."""
+    out = []
+    def rec(x):
+        if isinstance(x, tuple):
+            if x and isinstance(x[0], str) and stop(x):
+                return
+            if x and x[0] == 'call' and isinstance(x[1], str):
+                out.append(x[1].rsplit('::', 1)[-1])
+            for y in x:
+                rec(y)
+    rec(t)
+    return out
+
 def calls_in(t):
     return [x[1].rsplit('::', 1)[-1] for x in absx.leaves(t, lambda x: x[0] == 'call')]
 
@@ -229,10 +243,15 @@ def run(ctx):
             return None
         got = set()
         vias = {}
+        vias_above = {}
+        per_path = []
         for o in absx.Interp(f, B, unroll=1, for_once=True, field_hook=hook).run():
             if not (o.kind in ('val', 'ret') and o.val[0] == 'ctor' and o.val[1].endswith('LdapResultExt')) or any(t and a[0] == 'is' and a[2] == 'Tag::Null' for a, t in o.st.pc):
                 continue
             n_eval += 1
+            got_before = set(got)
+            got.clear()
+            per_path.append((o, got))
             res, exop, creds = o.val[2]
             fields = {'refs': struct_fields(res).get('refs', ('unk',)), 'exop_name': struct_fields(exop).get('name', ('unk',)),
                       'exop_val': struct_fields(exop).get('val', ('unk',)), 'sasl_creds': creds}
@@ -244,11 +263,20 @@ def run(ctx):
                 if sem.has(t, is_elem):
                     got.add(k)
                     vias[k] = calls_in(t)
+                    vias_above.setdefault(k, []).extend(calls_above(t, is_elem))
             for e in o.st.ev:
                 if e[0] == 'call' and e[1].rsplit('::', 1)[-1] in ('extend', 'push', 'append') and any(sem.has(a, is_elem) for a in e[2][1:]):
                     got.add('refs' if sem.has(fields['refs'], lambda x: True) and e[2][0] == fields['refs'] or True else 'refs')
                     vias['refs'] = [c for a in e[2][1:] for c in calls_in(a)]
+            per_path[-1] = (o, set(got))
+            got |= got_before
         exp = RFC4511_RESULT_TAGS.get(tagno)
+        if exp is not None and per_path:
+            # ... on every path, whatever the component contains: a component that is present is never read as absent
+            miss = [o for o, g in per_path if exp not in g]
+            ctx.add('T1.dispatch-entry-unconditional', '[%d]' % tagno, loc(B.root), not miss,
+                    'on a path on which the trailing component [%d] is present, %s does not receive it (%s): a present component is decoded as absent' % (
+                        tagno, exp, ', '.join(('' if t else '!') + absx.fmt(a)[:60] for a, t in (miss[0].st.pc[-2:] if miss else []))))
         if exp is None:
             ctx.add('T1.dispatch-default', 'tag %d' % tagno, loc(B.root), not got, 'a trailing component with tag [%d] (not defined for LDAPResult) changes %s' % (tagno, sorted(got)))
             continue
@@ -260,6 +288,13 @@ def run(ctx):
             ok = ok and 'expect_primitive' in via and 'from_utf8' not in via
         elif exp == 'exop_name':
             ok = ok and 'expect_primitive' in via and 'from_utf8' in via
+        if exp in ('sasl_creds', 'exop_val', 'exop_name'):
+            # the component's content is stored as it is: nothing between the primitive content and the field that could drop,
+            # replace or condition it (Option::filter, then_some, a lossy conversion, ...)
+            TRANSPARENT = {'expect_primitive', 'into', 'to_vec', 'to_owned', 'clone', 'from', 'into_owned', 'as_ref', 'as_slice', 'into_boxed_slice', 'into_vec'} | ({'from_utf8'} if exp == 'exop_name' else set())
+            extra = sorted(set(vias_above.get(exp, [])) - TRANSPARENT)
+            ctx.add('T1.dispatch-entry-verbatim', '[%d]' % tagno, loc(B.root), not extra,
+                    'component [%d] reaches %s through %s: its content can be dropped or altered on the way' % (tagno, exp, extra))
         ctx.add('T1.dispatch-entry', '[%d]' % tagno, loc(B.root), ok, 'component [%d] feeds %s via %s; RFC 4511: %s' % (tagno, sorted(got), via, exp))
     ctx.floor('T1', 'decoder evaluations over component tags', n_eval, len(domain))
 
